@@ -8,7 +8,13 @@ import os
 def nontrivial_rule(P):
     f = P.get("nontrivial")
     if f:
-        return f
+        def safe(case, obs, f=f):
+            # runs with their own case encoding (probe programs, direct-oracle runs) are simply not counted
+            try:
+                return bool(f(case, obs))
+            except (IndexError, ValueError):
+                return False
+        return safe
     return lambda case, obs: len(obs.split()) > 2
 
 
